@@ -150,8 +150,8 @@ PROPS = {
     ),
     'C08': dict(
         lean=['Props.C08', 'Props.C13Parse', 'Props.FactsProc'],
-        streams=['detector', 'parse'],
-        project={'parse': r'^$'},
+        streams=['detector', 'parse', 'processor'],
+        project={'parse': r'^$', 'processor': r'^< parser-edge'},
         rule=DET_RULE, trusted=DET_TRUSTED,
         assumptions=['same event skeleton (resets, FFC flags) in both streams'],
     ),
@@ -182,8 +182,8 @@ PROPS = {
     ),
     'C14': dict(
         lean=['Props.C14', 'Props.C14Daemons', 'Props.FactsWiring', 'Props.Pipeline'],
-        streams=['e2e', 'leptond', 'leptondloop', 'processor'],
-        project={'processor': r'^< det'},
+        streams=['e2e', 'leptond', 'leptondloop', 'processor', 'detector'],
+        project={'processor': r'^< det', 'detector': r'^$'},
         rule=E2E_RULE + '; leptond stream: the real sendCameraSpecs of the camera daemon run on a lepton3.Lepton3 whose I2C command interface is a register-level fake (serials up to 2^63-1, '
              'both part numbers and unknown ones, firmware bytes 0..255, failing serial / firmware queries), sent over a unix socket and read with the real ReadHeaderInfo and with the Lean decoder',
         trusted=E2E_TRUSTED + ['yaml.v1 (camera header): the model uses a decoder for the image of the encoder on flat maps, validated against the real decoder',
